@@ -124,17 +124,18 @@ Admissible(p) == usage[call[p].t][Kind(call[p])] + Reserved(p) < quota[call[p].t
 Allowed(t) == {ApplySet(G[t], S) : S \in SUBSET (InFlight(t) \cup {o \in pend : o.t = t})}
 
 \* ---------------------------------------------------------------- initial state
-PInit(q) ==
+PInitC(q, c) ==
     /\ wal = <<>>
     /\ kv = [t \in Tenants |-> EmptyGraph]
     /\ usage = [t \in Tenants |-> [n |-> 0, e |-> 0]]
     /\ quota = q
-    /\ pc = [p \in Procs |-> "idle"]
-    /\ call = [p \in Procs |-> NoCall]
+    /\ call = c
+    /\ pc = [p \in Procs |-> IF c[p] = NoCall THEN "idle" ELSE IF IsCreate(c[p]) THEN "chk" ELSE "wal"]
     /\ res = [p \in Procs |-> "ok"]
     /\ G = [t \in Tenants |-> EmptyGraph]
     /\ pend = {}
     /\ stale = {}
+PInit(q) == PInitC(q, [p \in Procs |-> NoCall])
 
 \* ---------------------------------------------------------------- one persist_* call, step by step
 Begin(p, o) ==
@@ -158,7 +159,7 @@ ChkAdmit(p) == pc[p] = "chk" /\ Admissible(p) /\ Admit(p)
 \* a refusal is always within the property (it must only leave nothing behind); the model of
 \* the code refuses exactly when the counter says so
 ChkRefuse(p) == pc[p] = "chk" /\ Refuse(p)
-ChkRefuseCode(p) == ~CounterSaysOk(p) /\ ChkRefuse(p)
+ChkRefuseCode(p) == pc[p] = "chk" /\ ~CounterSaysOk(p) /\ Refuse(p)
 \* DEVIATION (pinned tree): the check only looks at the counter
 KF_C18_CheckThenActRace(p) == pc[p] = "chk" /\ CounterSaysOk(p) /\ ~Admissible(p) /\ Admit(p)
 
